@@ -37,6 +37,15 @@
 #include "llvm/Transforms/Scalar/JumpThreading.h"
 #include "llvm/Transforms/Utils/Local.h"
 #include "llvm/Transforms/Utils/Mem2Reg.h"
+#include "llvm/Transforms/Utils/UnrollLoop.h"
+#include "llvm/Transforms/Utils/LoopSimplify.h"
+#include "llvm/Transforms/Utils/LCSSA.h"
+#include "llvm/Analysis/LoopInfo.h"
+#include "llvm/Analysis/ScalarEvolution.h"
+#include "llvm/Analysis/ScalarEvolutionExpressions.h"
+#include "llvm/Analysis/AssumptionCache.h"
+#include "llvm/Analysis/TargetTransformInfo.h"
+#include "llvm/Analysis/OptimizationRemarkEmitter.h"
 
 #include <map>
 #include <set>
@@ -278,6 +287,86 @@ int main(int argc, char **argv) {
     F3.run(*R, FAM);
     FAM.invalidate(*R, PreservedAnalyses::none());
     removeUnreachableBlocks(*R);
+  }
+  // (U) loops with a small constant trip count are unrolled completely: "statement repeated 8 times" and
+  // "for (i = 0; i < 8; ++i) statement(i)" become the same straight-line code, with constant offsets and
+  // constant call arguments.  Innermost loops first; a loop is left alone when its trip count is not a
+  // compile-time constant, exceeds 64, or the unrolled body would exceed 6000 instructions.
+  for (Function &F : *M) {
+    if (F.isDeclaration()) continue;
+    bool again = true;
+    int rounds = 0;
+    while (again && rounds++ < 16) {
+      again = false;
+      FAM.invalidate(F, PreservedAnalyses::none());
+      {
+        FunctionPassManager FPM;
+        FPM.addPass(LoopSimplifyPass());
+        FPM.addPass(LCSSAPass());
+        // only normalise functions that have a candidate loop: checked below on a scratch analysis
+      }
+      auto &LI0 = FAM.getResult<LoopAnalysis>(F);
+      if (LI0.empty()) break;
+      // candidates need simplified form for the trip-count computation; compute on the current form first
+      auto &SE0 = FAM.getResult<ScalarEvolutionAnalysis>(F);
+      bool cand = false;
+      for (Loop *L : LI0.getLoopsInPreorder()) {
+        if (!L->isInnermost()) continue;
+        const SCEV *BT = SE0.getBackedgeTakenCount(L);
+        if (auto *C = dyn_cast<SCEVConstant>(BT))
+          if (C->getAPInt().ult(64)) cand = true;
+      }
+      if (!cand) break;
+      {
+        FunctionPassManager FPM;
+        FPM.addPass(LoopSimplifyPass());
+        FPM.addPass(LCSSAPass());
+        FPM.run(F, FAM);
+        FAM.invalidate(F, PreservedAnalyses::none());
+      }
+      auto &LI = FAM.getResult<LoopAnalysis>(F);
+      auto &SE = FAM.getResult<ScalarEvolutionAnalysis>(F);
+      auto &DT = FAM.getResult<DominatorTreeAnalysis>(F);
+      auto &AC = FAM.getResult<AssumptionAnalysis>(F);
+      auto &TTI = FAM.getResult<TargetIRAnalysis>(F);
+      OptimizationRemarkEmitter ORE(&F);
+      for (Loop *L : LI.getLoopsInPreorder()) {
+        if (!L->isInnermost()) continue;
+        unsigned TC = SE.getSmallConstantTripCount(L);
+        if (TC == 0 || TC > 64) continue;
+        unsigned sz = 0;
+        for (BasicBlock *B : L->blocks()) sz += B->size();
+        if (sz * TC > 6000) continue;
+        UnrollLoopOptions ULO;
+        ULO.Count = TC;
+        ULO.Force = true;
+        ULO.Runtime = false;
+        ULO.AllowExpensiveTripCount = false;
+        ULO.UnrollRemainder = false;
+        ULO.ForgetAllSCEV = true;
+        std::string hn = std::string(L->getHeader()->getName());
+        LoopUnrollResult R = UnrollLoop(L, ULO, &LI, &SE, &DT, &AC, &TTI, &ORE, /*PreserveLCSSA=*/true);
+        if (R == LoopUnrollResult::FullyUnrolled) {
+          errs() << "unroll " << F.getName() << " U loop@" << hn << " x" << TC << "\n";
+          again = true;
+          break;      // analyses are stale: recompute and look for the next loop
+        }
+      }
+    }
+    if (rounds > 1) {
+      FAM.invalidate(F, PreservedAnalyses::none());
+      FunctionPassManager FPM;
+      FPM.addPass(InstSimplifyPass());
+      FPM.run(F, FAM);
+      bool changed = true;
+      int guard = 0;
+      while (changed && guard++ < 8) {
+        changed = false;
+        for (BasicBlock &B : F) changed |= ConstantFoldTerminator(&B, true);
+        changed |= removeUnreachableBlocks(F);
+      }
+      FAM.invalidate(F, PreservedAnalyses::none());
+    }
   }
   if (verifyModule(*M, &errs())) {
     errs() << "irspec: module broken after specialisation\n";
